@@ -19,8 +19,28 @@ func init() { gens["C18"] = &Gen{Run: runC18, Replay: replayC18} }
 
 // exact rational of a float32
 func ratOf(p float32) (string, string) {
+	if p != p { // NaN is no probability: written as 0/1 (nothing is "0 < NaN")
+		return "0", "1"
+	}
+	if math.IsInf(float64(p), 0) {
+		if p > 0 {
+			return "2", "1"
+		}
+		return "-2", "1"
+	}
 	r := new(big.Rat).SetFloat64(float64(p))
 	return r.Num().String(), r.Denom().String()
+}
+
+// hookOptionTable: varinterval options inside and outside their documented ranges (C20, C18)
+func hookOptionTable(c *Ctx, r *Rng) {
+	nan := math.Float32frombits(0x7fc00000)
+	for _, p := range []float32{0, -0.5, 1, 1.0000001, 1.1, 0.5, 1e-30, 2, 3e38, -0.25, -1e30, -1e-30, float32(math.Copysign(0, -1)),
+		nan, float32(math.Inf(1)), float32(math.Inf(-1)), -1, math.Float32frombits(0x80000001)} {
+		for _, d := range []int{-10, -1, 0, 1, 60, math.MinInt64, math.MaxInt64} {
+			viCheck(c, p, d, r.Bool())
+		}
+	}
 }
 
 func viHandle(c *Ctx, ih, pid []byte, p float32, delta int, mm bool, iv, miv time.Duration) {
@@ -112,11 +132,7 @@ func runC18(c *Ctx) {
 	probs := []float32{1, 0.5, 0.25, 0.1, 0.999, 1e-7, 0.75, math.Float32frombits(0x3f7fffff) /* largest < 1 */, math.Float32frombits(1) /* smallest subnormal */}
 	deltas := []int{1, 2, 60, 600, 3600, 1 << 24, 1 << 31, math.MaxInt64 / 2000000000}
 	// configuration checks
-	for _, p := range []float32{0, -0.5, 1, 1.0000001, 1.1, 0.5, 1e-30, 2, 3e38} {
-		for _, d := range []int{-10, -1, 0, 1, 60} {
-			viCheck(c, p, d, r.Bool())
-		}
-	}
+	hookOptionTable(c, r)
 	iv, miv := 30*time.Minute, 15*time.Minute
 	// constructed generator states
 	for _, first := range edge64 {
